@@ -44,6 +44,14 @@ def source_digest(*objs):
     return out
 
 
+def safe_digest(thunk):
+    """A refactoring that moves or renames a private function must not crash the harness: the list is evidence, not an obligation."""
+    try:
+        return thunk()
+    except AttributeError as e:
+        return [f"(function list unavailable on this tree: {e})"]
+
+
 def load_known():
     try:
         with open(KNOWN_FILE) as f:
